@@ -11,10 +11,10 @@ import (
 
 func init() {
 	register(&ruleSet{
-		id:    "C05",
-		title: "operator results for every combination of operand kinds",
-		run:   runC05,
-		decided: "which Go operation, on which operands in which order, under which guard, each operator arm of the evaluator performs (operator table extracted per operator tag with a may-set analysis over the tag tests and compared, as normalised dataflow, with the documented table): dispatch is exhaustive for every operator tag the parser can put on a node; comparisons map to Compare(left, right) ⊙ 0 with the unset special case; arithmetic uses the numeric coercions in (left, right) order, + concatenates string forms when either operand is a string; the divide-by-zero guards test the (truncated) divisor only and dominate the division; && and || evaluate the right operand only on the documented edge and yield booleans; `is` type names map to the matching tags; ~ / !~ compile the right operand's text and match the left operand's string form; the coercion tables isTruthy / asFloat64 / String / Compare.",
+		id:         "C05",
+		title:      "operator results for every combination of operand kinds",
+		run:        runC05,
+		decided:    "which Go operation, on which operands in which order, under which guard, each operator arm of the evaluator performs (operator table extracted per operator tag with a may-set analysis over the tag tests and compared, as normalised dataflow, with the documented table): dispatch is exhaustive for every operator tag the parser can put on a node; comparisons map to Compare(left, right) ⊙ 0 with the unset special case; arithmetic uses the numeric coercions in (left, right) order, + concatenates string forms when either operand is a string; the divide-by-zero guards test the (truncated) divisor only and dominate the division; && and || evaluate the right operand only on the documented edge and yield booleans; `is` type names map to the matching tags; ~ / !~ compile the right operand's text and match the left operand's string form; the coercion tables isTruthy / asFloat64 / String / Compare.",
 		notDecided: "IEEE results, strings.Compare and RE2 semantics (trusted libraries), i.e. the numerical table itself.",
 	})
 }
@@ -797,7 +797,7 @@ func c05Coercions(c *Ctx) {
 	c.checkArm("R8", "Compare", cmpFn, armSpec{
 		Results: []string{"0", "-1", "1", "strings.Compare(*v.Str, *b.Str)"},
 		Effects: []string{},
-		Guards: map[string][]string{"strings.Compare(*v.Str, *b.Str)": {"v.Tag == ValueStr", "b.Tag == ValueStr"}},
+		Guards:  map[string][]string{"strings.Compare(*v.Str, *b.Str)": {"v.Tag == ValueStr", "b.Tag == ValueStr"}},
 		Source:  "two strings bytewise, null below everything except null, otherwise numeric coercions",
 	})
 	if cmpFn != nil {
